@@ -499,6 +499,24 @@ def work_inddev(job):
 
 
 
+def func_models():
+    """transcendental functions (accepted natively): min f(arg) - y  s.t.  f(arg) + y <= f(arg0) + 0.6173, arg = x + shift inside
+    the function's domain; the checker must recompute the same values as the reference evaluator"""
+    V = [(-0.75, 0.75, False, 0.25), (0.0, 1.0, False, 0.5)]
+    x, y = ('v', 0), ('v', 1)
+    one = lambda sh: ('add', x, N(sh)) if sh else x
+    fs = [('exp', 0.0), ('log', 1.0), ('log10', 1.0), ('sin', 0.0), ('cos', 0.0), ('tan', 0.0), ('sinh', 0.0), ('cosh', 0.0), ('tanh', 0.0),
+          ('atan', 0.0), ('asinh', 0.0), ('asin', 0.0), ('acos', 0.0), ('acosh', 2.0), ('atanh', 0.0), ('sqrt', 1.0)]
+    for fn, sh in fs:
+        e = (fn, one(sh))
+        c = nlmodel.ev(e, [0.25, 0.0]) + 0.6173
+        yield ('funcs', 'func %s' % fn, Model(V, acons=[(e, {1: 1.0}, -INF, c)], obj=('min', e, {1: -1.0})))
+    for nm, e in (('x^3', ('powc', one(0.0), N(3.0))), ('x^0.5', ('powc', one(1.0), N(0.5))), ('2^x', ('cpow', N(2.0), one(0.0))), ('x^1.5', ('powc', one(1.0), N(1.5)))):
+        c = nlmodel.ev(e, [0.25, 0.0]) + 0.6173
+        yield ('funcs', 'func %s' % nm, Model(V, acons=[(e, {1: 1.0}, -INF, c)], obj=('min', e, {1: -1.0})))
+
+
+
 def models(tier):
     fams = ['linmix', 'canon', 'uenc', 'sharing', 'fracint', 'bounds', 'dvars', 'compl', 'sos', 'cones'] if tier == 'quick' else None
     out = []
@@ -515,6 +533,7 @@ def models(tier):
         out = [t for t in out if t[0] != 'shapes']                   # thorough: every model of every other family,
         out += [t for t in sh if '<-' in t[1] and not t[1].startswith('log ')][::3]   # every 3rd numeric depth-2 shape
     out += [t for t in sh if '<-' not in t[1]]          # every depth-1 operator shape at every root
+    out += list(func_models())
     out += [t for t in sh if '<-' in t[1] and t[1].startswith('log ')]   # every (parent, slot, child) under a logical root:
     # a nested expression may be false at a feasible point, so a wrong recomputation shows as a spurious report
     return out
